@@ -760,12 +760,23 @@ class NumpyShim:
                     else:
                         break
                 return n
+            if isinstance(v, (list, tuple)):
+                v = rnp.array(list(v), dtype=object)
             if isinstance(v, rnp.ndarray):
                 if v.shape == ():
                     return rnp.int64(one(v[()]))
                 return rnp.array([one(x) for x in v.reshape(-1)], dtype=rnp.int64).reshape(v.shape)
             return rnp.int64(one(v))
         return rnp.searchsorted(a, v, side=side, **k)
+
+    def finfo(self, dt=float):
+        return rnp.finfo(_real_dtype(dt))
+
+    def iinfo(self, dt=int):
+        return rnp.iinfo(_real_dtype(dt))
+
+    def dtype(self, dt, *a, **k):
+        return rnp.dtype(_real_dtype(dt), *a, **k)
 
     def isclose(self, a, b, rtol=1e-05, atol=1e-08, **k):
         if has_sym(a) or has_sym(b):
